@@ -413,6 +413,79 @@ def run_load(retort, t, v):
         return "X"
 
 
+# ----------------------------------------------------------------------------------------------------------------------
+# exotic data: instances of proper SUBCLASSES of the builtin data types and other look-alikes that the Gallina value
+# type does not represent.  They are run through the library only; the direct oracles (mode agreement, strict inside
+# lax, LoadError only) are checked on them, the model is not.
+
+def exotic_values():
+    import array
+    import collections
+    import enum
+
+    class Tag(str):
+        pass
+
+    class Num(int):
+        pass
+
+    class Real(float):
+        pass
+
+    class Blob(bytes):
+        pass
+
+    class Rows(list):
+        pass
+
+    class Pair(tuple):
+        pass
+
+    class Bag(dict):
+        pass
+
+    class Level(enum.IntEnum):
+        LOW = 1
+        HIGH = 2
+
+    class Kind(str, enum.Enum):
+        A = "a"
+        B = "12"
+
+    class Bits(enum.IntFlag):
+        R = 1
+        W = 2
+
+    NT = collections.namedtuple("NT", "a b")
+    out = [
+        ("str-sub:ab", lambda: Tag("ab")), ("str-sub:empty", lambda: Tag("")), ("str-sub:12", lambda: Tag("12")), ("str-enum", lambda: Kind.B),
+        ("int-sub:1", lambda: Num(1)), ("int-sub:0", lambda: Num(0)), ("int-enum", lambda: Level.LOW), ("int-flag", lambda: Bits.R | Bits.W),
+        ("float-sub", lambda: Real(1.0)), ("bytes-sub", lambda: Blob(b"ab")),
+        ("list-sub", lambda: Rows([1, "a"])), ("list-sub:empty", lambda: Rows()), ("list-sub:strs", lambda: Rows(["a", "b"])),
+        ("tuple-sub", lambda: Pair((1, "a"))), ("namedtuple", lambda: NT(1, "a")), ("namedtuple:strs", lambda: NT("a", "b")),
+        ("dict-sub", lambda: Bag(a=1)), ("ordered-dict", lambda: collections.OrderedDict(a=1, b=2)),
+        ("default-dict", lambda: collections.defaultdict(int, {"a": 1})), ("counter", lambda: collections.Counter("ab")),
+        ("deque", lambda: collections.deque([1, 2])), ("range", lambda: range(2)), ("array", lambda: array.array("i", [1, 2])),
+        ("memoryview", lambda: memoryview(b"ab")), ("dict-keys", lambda: {"a": 1}.keys()), ("dict-items", lambda: {"a": 1}.items()),
+        ("mapping-proxy", lambda: type.__dict__["__dict__"].__get__(Tag)), ("generator", lambda: (x for x in ("a", "b"))),
+        ("map-object", lambda: map(str, (1, 2))), ("str-sub-in-list", lambda: [Tag("ab"), Tag("c")]), ("int-sub-in-list", lambda: [Num(1), Level.HIGH]),
+        ("list-of-str-sub-keys-dict", lambda: {Tag("a"): Num(1)}), ("nested-sub", lambda: Rows([Rows([1]), Pair((2,))])),
+    ]
+    return out
+
+
+def run_exotic(retort, t, make):
+    """-> ('ok', value) | ('le', exc) | ('x', exc); a fresh datum per call (one-shot iterators)"""
+    from adaptix import load_error as le
+    BOOM_STATE["raised"] = 0
+    try:
+        return ("ok", retort.load(make(), py_ty(t)))
+    except le.LoadError as e:
+        return ("le", e)
+    except BaseException as e:  # noqa: BLE001
+        return ("x", e)
+
+
 SHOW_HEADER = """From AV Require Import Model.Val Model.Load Model.Harness.
 From Coq Require Import Arith Bool.
 Local Open Scope string_scope.
